@@ -9,6 +9,9 @@ from .ops import Interp, Skip
 from .universe import Universe
 
 
+CURRENT_CASE = None
+
+
 class Result(object):
     def __init__(self, case):
         self.case = case
@@ -80,6 +83,8 @@ def run_session(prop, run_seed, profile, monitors, ops=None, known=None, own_tre
     case = {"format": 1, "engine": "session", "property": prop, "run_seed": run_seed,
             "profile": profile.name, "config": cfg, "ops": []}
     res = Result(case)
+    global CURRENT_CASE
+    CURRENT_CASE = case       # what the run has issued so far, for a watchdog that fires mid-run
     res.log.append(jdump({"run_seed": run_seed, "property": prop, "profile": profile.name}))
     clock = seams.SimClock()
     with seams.installed(streams, clock=clock) as env:
